@@ -1033,6 +1033,7 @@ func (vc *VC) addAllocMono(st *State, old, nw string) {
 // havocAllHeap forgets the whole program heap. Ghost components (state that only specifications change) are
 // kept: they change only through the modifies clauses of contracts that name them.
 func (vc *VC) havocAllHeap(st *State) {
+	st.approx = true
 	ghost := map[string]string{}
 	for _, comp := range sortedKeys(vc.compSort) {
 		if strings.HasPrefix(comp, "ghost:") || strings.HasPrefix(comp, "local:") {
@@ -1150,6 +1151,7 @@ func (vc *VC) loopCommon(st *State, lc loopCtx, atHead func(s *State), cond func
 	h := st.clone()
 	f1, e1 := vc.nfresh, vc.nepoch
 	vc.havocMods(h, ms)
+	h.approx = true
 	framed := vc.loopFrame(st, h, ms, f1, e1, iteration)
 	vc.loopOrd = savedOrd
 	// what the loop writes is also a write of the enclosing code
